@@ -986,4 +986,136 @@ def run (arrays : Bool) (p : LensRec ν) (es : List (Edit ν)) : LensRec ν := e
 
 end history
 
+/-! ## surface indices counted from the image (added for C19, round 7)
+
+`Pickup`, `MarginalRayHeightSolve`, `Optic.set_radius / set_conic` address a surface as
+`surface_group.surfaces[i]` with the Python `int` the caller passed; a negative `i` counts from the image.
+`to_dict` writes that `int` verbatim, `Pickup(optic, **data)` / `BaseSolve.from_dict` read it verbatim. -/
+section pyindex
+
+/-- `surfaces[i]` for a list of length `n`: the position read (`none` = `IndexError`) -/
+def pyIndex (n : Nat) (i : Int) : Option Nat :=
+  if 0 ≤ i then (if i < (n : Int) then some i.toNat else none)
+  else if -(n : Int) ≤ i then some (i + (n : Int)).toNat else none
+
+/-- a pickup as the caller registered it (indices are Python `int`s of either sign) -/
+structure PickRecZ (ν : Type) where
+  src : Int
+  attr : PickAttr
+  tgt : Int
+  scale : ν
+  offset : ν
+
+/-- a solve as the caller registered it -/
+structure SolveRecZ (ν : Type) where
+  idx : Int
+  height : ν
+
+/-- the leaves of a pickup / solve dictionary (a Python `int` of either sign, a number, a string) -/
+inductive JV (ν : Type) where
+  | int (i : Int)
+  | num (x : ν)
+  | str (s : String)
+
+def JV.lookup (key : String) : List (String × JV ν) → Option (JV ν)
+  | [] => none
+  | (k, v) :: rest => if k = key then some v else JV.lookup key rest
+
+def JV.asInt : Option (JV ν) → R Int
+  | some (.int i) => .ok i
+  | some _ => .error "TypeError: index expected"
+  | none => .error "KeyError"
+def JV.asNum : Option (JV ν) → R ν
+  | some (.num x) => .ok x
+  | some _ => .error "TypeError: number expected"
+  | none => .error "KeyError"
+def JV.asStr : Option (JV ν) → R String
+  | some (.str s) => .ok s
+  | some _ => .error "TypeError: str expected"
+  | none => .error "KeyError"
+
+/-- `Pickup.to_dict`: the indices as they are stored on the object -/
+def pickZToDict (p : PickRecZ ν) : List (String × JV ν) :=
+  [("source_surface_idx", .int p.src), ("attr_type", .str p.attr.name),
+   ("target_surface_idx", .int p.tgt), ("scale", .num p.scale), ("offset", .num p.offset)]
+
+/-- seeded slip: a `to_dict` that 'normalises' an index counted from the image with `len - 1` for `len` -/
+def normIdxSlip (n : Nat) (i : Int) : Int := if i < 0 then ((n : Int) - 1) + i else i
+
+/-- the correct normalisation, for comparison -/
+def normIdx (n : Nat) (i : Int) : Int := if i < 0 then (n : Int) + i else i
+
+def pickZToDict_slip (n : Nat) (p : PickRecZ ν) : List (String × JV ν) :=
+  pickZToDict { p with src := normIdxSlip n p.src, tgt := normIdxSlip n p.tgt }
+
+/-- `Pickup(optic, **pickup_data)` -/
+def pickZFrom (kv : List (String × JV ν)) : R (PickRecZ ν) := do
+  let src ← JV.asInt (JV.lookup "source_surface_idx" kv)
+  let attr ← JV.asStr (JV.lookup "attr_type" kv)
+  let tgt ← JV.asInt (JV.lookup "target_surface_idx" kv)
+  let scale ← JV.asNum (JV.lookup "scale" kv)
+  let offset ← JV.asNum (JV.lookup "offset" kv)
+  let attr ← PickAttr.parse attr
+  pure ⟨src, attr, tgt, scale, offset⟩
+
+/-- `MarginalRayHeightSolve.to_dict` / `BaseSolve.from_dict` -/
+def solveZToDict (s : SolveRecZ ν) : List (String × JV ν) :=
+  [("type", .str "MarginalRayHeightSolve"), ("surface_idx", .int s.idx), ("height", .num s.height)]
+
+def solveZFrom (kv : List (String × JV ν)) : R (SolveRecZ ν) := do
+  let t ← JV.asStr (JV.lookup "type" kv)
+  if t = "MarginalRayHeightSolve" then do
+    let i ← JV.asInt (JV.lookup "surface_idx" kv)
+    let h ← JV.asNum (JV.lookup "height" kv)
+    pure ⟨i, h⟩
+  else .error "ValueError: unknown solve type"
+
+/-- the surfaces a pickup addresses in a lens of `n` surfaces: the record of the index-resolved model
+(`none` = `IndexError` at the next `apply`) -/
+def PickRecZ.resolve (n : Nat) (p : PickRecZ ν) : Option (PickRec ν) :=
+  match pyIndex n p.src, pyIndex n p.tgt with
+  | some s, some t => some ⟨s, p.attr, t, p.scale, p.offset⟩
+  | _, _ => none
+
+def SolveRecZ.resolve (n : Nat) (s : SolveRecZ ν) : Option (SolveRec ν) :=
+  (pyIndex n s.idx).map fun k => ⟨k, s.height⟩
+
+/-- `Pickup.apply` with the indices as registered (radius and conic pickups; a thickness pickup reads
+`positions[src + 1]`, which for `src = -1` is `positions[0]` — not followed here) -/
+def applyPickupZ [Num ν] (arrays : Bool) (ss : List (SurfRec ν)) (p : PickRecZ ν) : R (List (SurfRec ν)) :=
+  match p.resolve ss.length with
+  | none => .error "IndexError"
+  | some q => applyPickup arrays ss q
+
+/-- start of the slice `surfaces[i:]` over which `MarginalRayHeightSolve.apply` shifts `cs.z` (a slice never
+raises; out-of-range bounds are clamped) -/
+def pySliceStart (n : Nat) (i : Int) : Nat :=
+  if 0 ≤ i then (if i < (n : Int) then i.toNat else n)
+  else if -(n : Int) ≤ i then (i + (n : Int)).toNat else 0
+
+/-- the shift of `MarginalRayHeightSolve.apply` with the index as registered -/
+def applySolveZ [Num ν] (arrays : Bool) (ss : List (SurfRec ν)) (idx : Int) (offset : ν) : List (SurfRec ν) :=
+  applySolve arrays ss (pySliceStart ss.length idx) offset
+
+end pyindex
+
+/-! ## which object owns the object-space-telecentric flag (added for C19, round 7)
+
+Three copies exist: `Optic.obj_space_telecentric` (`LensRec.objTelecentric`), `FieldGroup.telecentric`
+(`LensRec.fgTelecentric`) and `Aperture.object_space_telecentric` (`SysAp.telecentric`).
+`Optic.to_dict` writes `fields.object_space_telecentric` from the first. -/
+section flags
+variable [Num ν]
+
+/-- seeded slip: `data['fields']['object_space_telecentric'] = self.fields.telecentric` -/
+def toDict_fgFlag (p : LensRec ν) : J ν := toDict_code { p with objTelecentric := p.fgTelecentric }
+
+/-- seeded slip: `... = self.aperture.object_space_telecentric` (`False` without an aperture) -/
+def toDict_apFlag (p : LensRec ν) : J ν :=
+  toDict_code { p with objTelecentric := match p.aperture with
+                                          | some a => a.telecentric
+                                          | none => false }
+
+end flags
+
 end Serial
